@@ -64,8 +64,9 @@ class OrderedMapModel(object):
         del self.items[i]
         return v
 
-    def sort(self):
-        self.items.sort(key=lambda kv: kv[0])
+    def sort(self, key=None, reverse=False):
+        # list.sort on the keys: stable, also in descending order
+        self.items.sort(key=(lambda kv: kv[0]) if key is None else (lambda kv: key(kv[0])), reverse=reverse)
 
     def reverse(self):
         self.items.reverse()
